@@ -17,7 +17,7 @@ claims={
   note="Per-call cost of PikeVM, lazy DFA, backtracker recursion and compile time are not decided by this check; map-iteration loops carry no measure.",
   ref="DESIGN 6/C05"),
  "C06": dict(
-  text="Frame/ownership discipline decided for every exported search, enumeration and replace method of Regex and Engine (57 entry points, enumerated from the types): a bottom-up modifies-summary over the SSA call graph (RTA-resolved interface calls, field-sensitive access paths) shows which memory each entry point writes; writes must be atomic, to freshly allocated memory, or to state handed out by sync.Pool.Get / atomic.Pointer.Swap. 15 entry points are clean; the others write 16 shared objects without synchronisation - all listed as open known findings (shared PikeVM instances, backtracker internalState, composite scratch), one of them confirmed under go test -race. Any other unsynchronised write to shared or input memory is reported with its call chain.",
+  text="Frame/ownership discipline decided for every exported search, enumeration and replace method of Regex and Engine (57 entry points, enumerated from the types): a bottom-up modifies-summary over the SSA call graph (RTA-resolved interface calls, field-sensitive access paths) shows which memory each entry point writes; writes must be atomic, to freshly allocated memory, or to state handed out by sync.Pool.Get / atomic.Pointer.Swap. 15 entry points are clean; the others write 11 shared objects without synchronisation - all listed as open known findings (5 earlier ones disappeared with the repair of the lazy DFA's reverse fallback) (shared PikeVM instances, backtracker internalState, composite scratch), one of them confirmed under go test -race. Any other unsynchronised write to shared or input memory is reported with its call chain.",
   note="Decides the ownership discipline, not interleavings: linearizability of sync.Pool / sync/atomic is assumed; 'same result as alone' additionally rests on C13. User callbacks and dynamic function values are outside the contract; unsafe/reflect aliasing is not followed; paths are index-insensitive. This check is the govc frame engine (static frame inference), not an SMT discharge.",
   ref="DESIGN 4, 6/C06"),
  "C07": dict(
@@ -69,8 +69,8 @@ claims={
   note="Not under contract: CrossForward, Minimize, Dedup (existential coverage invariants did not discharge; Dedup has an assumed frame contract), the suffix and inner extraction (extractSuffixes has the same truncation defects by inspection - listed in DESIGN S.3, undecided), case-fold expansion, class expansion, the recursive extraction over the syntax tree (needs the language of an arbitrary AST). 'every match starts with one of the literals' for the extractor as a whole is therefore NOT decided. Assumed: []byte(string(runes)) length (rsbLen), sort.Slice not modelled.",
   ref="DESIGN S.2/C17"),
  "C19": dict(
-  text="Three fast paths are proved exact on the fragment their applicability test accepts, for every haystack and offset. (1) Character-class repetition: CharClassSearcher.SearchAt/Search/IsMatch return the leftmost maximal run of class bytes of length >= minMatch, and ExtractCharClassRanges accepts only a greedy + of an all-ASCII class. (2) Anchored literal ^prefix.*class+suffix$: MatchAnchoredLiteral returns true exactly when the input splits into prefix, wildcard (no newline unless (?s), at least one whole character for .+), class run and suffix (both directions, existential over the split, opaque witness predicate); DetectAnchoredLiteral accepts exactly concat(anchor, literal*, wildcard, [byte-decidable class +], literal, anchor) with case-sensitive literals and records what the matcher needs (table == class ranges, NotNL flag, UTF-8 of literals in the single-rune and ASCII cases); the engine entry points return [0,len] or nothing; CompileRegexp installs the info whenever the strategy is UseAnchoredLiteral. (3) extraction helpers: encodeRuneToBytes == UTF-8 arithmetic definition, buildCharClassTable, isByteClass. Seven genuine defects found on the way were fixed (lazy class, newline, case folding, Latin-1 literal, non-ASCII class, .+ in bytes, plus branch dispatch / first-byte set by probe).",
-  note="Not under contract: composite searchers (table and DFA form), branch dispatch and first-byte sets (repaired after differential probes, not yet specified), digit-run skipping, reverse-anchored / reverse-suffix / reverse-suffix-set / reverse-inner / multiline searchers (pre-existing disagreements with regexp seen by a seeding sub-agent are listed in DESIGN S.3, undecided). Assumed: that the reference semantics of the accepted fragment is alMatch (argument in DESIGN S.2/C19), SelectStrategy's start/end anchoring analysis (\\A and \\z), parser tree invariants (non-nil subtrees, valid runes), bytes.IndexByte, utf8.DecodeRune specs.",
+  text="Three fast paths are proved exact on the fragment their applicability test accepts, for every haystack and offset. (1) Character-class repetition: CharClassSearcher.SearchAt/Search/IsMatch return the leftmost maximal run of class bytes of length >= minMatch, and ExtractCharClassRanges accepts only a greedy + of an all-ASCII class. (2) Anchored literal ^prefix.*class+suffix$: MatchAnchoredLiteral returns true exactly when the input splits into prefix, wildcard (no newline unless (?s), at least one whole character for .+), class run and suffix (both directions, existential over the split, opaque witness predicate); DetectAnchoredLiteral accepts exactly concat(anchor, literal*, wildcard, [byte-decidable class +], literal, anchor) with case-sensitive literals and records what the matcher needs (table == class ranges, NotNL flag, UTF-8 of literals in the single-rune and ASCII cases); the engine entry points return [0,len] or nothing; CompileRegexp installs the info whenever the strategy is UseAnchoredLiteral. (3) extraction helpers: encodeRuneToBytes == UTF-8 arithmetic definition, buildCharClassTable, isByteClass. (4) Branch dispatch: BranchDispatcher.Search/IsMatch return exactly the match of the branch selected by the first byte, for dispatchers whose matchers are exact and whose table is consistent (bdOK). (5) Composite searchers: extractSinglePart accepts only greedy repetitions of all-ASCII classes and builds exactly the class table; the composite DFA tries every start position (lemma on the outer loop). (6) isDotStarLiteral (the reverse-suffix shortcut) accepts exactly .*literal. About twenty genuine defects found on the way were fixed (DESIGN S.3, items 10-13, 19, 22).",
+  note="Not under contract: the composite matchers' search loops (only applicability and the start-position lemma), NewBranchDispatcher / ExtractFirstBytes (the construction of a consistent dispatcher; repaired after probes), digit-run skipping, the search loops of the reverse-anchored / reverse-suffix / reverse-suffix-set / reverse-inner / multiline searchers (repaired after probes where they disagreed with regexp; DESIGN S.3). Assumed: that the reference semantics of the accepted fragment is alMatch (argument in DESIGN S.2/C19), SelectStrategy's start/end anchoring analysis (\\A and \\z), parser tree invariants (non-nil subtrees, valid runes), bytes.IndexByte, utf8.DecodeRune specs.",
   ref="DESIGN S.2/C19"),
 }
 na_reason={
